@@ -277,3 +277,18 @@ func (in *Interp) mergeBool(fr *Frame, f Value) Value {
 	}
 	return result
 }
+
+func init() {
+	intrinsics[vsymPkg+"SymNat"] = func(in *Interp, fr *Frame, a []Value) Value {
+		bits := int(a[1].(*Term).Int64())
+		v := in.freshVar(argStr(a[0]), IntSort)
+		in.assume(And(Le(IntConstI(0), v), Lt(v, pow2(bits))))
+		return in.newNumPtr("Nat", symNum(v, bits))
+	}
+	intrinsics[vsymPkg+"SymInt"] = func(in *Interp, fr *Frame, a []Value) Value {
+		bits := int(a[1].(*Term).Int64())
+		v := in.freshVar(argStr(a[0]), IntSort)
+		in.assume(And(Lt(Neg(pow2(bits)), v), Lt(v, pow2(bits))))
+		return in.newNumPtr("Int", symNum(v, bits))
+	}
+}
